@@ -155,17 +155,19 @@ def rule_a(ctx):
             pbb, _, pt = ops[0]
             # pushes iff the decorator returned Some
             good = False
+            extra = []
             for (a, s) in b.cdeps_transitive(pbb):
                 t = b.term(a)
                 neg, src = b.switch_source(a)
-                if src[0] == "discr":
-                    at = b.atoms(src[1])
-                    if has_call(at, "TextDecorator::" + decm):
-                        vals = [v for v, tb in t["targets"] if tb == s]
-                        if vals == [1]:
-                            good = True
-            ctx.check(good, "C09-A", nm + ":push-iff-Some", pt["span"], b.id,
-                      "push must be on the Some edge of the decorator's answer")
+                if src[0] == "discr" and has_call(b.atoms(src[1]), "TextDecorator::" + decm):
+                    vals = [v for v, tb in t["targets"] if tb == s]
+                    if vals == [1]:
+                        good = True
+                else:
+                    extra.append("%s@%s" % (src[0], t["span"]))
+            ctx.check(good and not extra, "C09-A", nm + ":push-iff-Some", pt["span"], b.id,
+                      "the annotation must be pushed exactly when the decorator answers Some (the matching pop is "
+                      "unconditional on the renderer's side); further conditions: %s" % extra)
     for nm in ("pop_colour", "pop_bgcolour"):
         b = F.one(RTRAIT + nm)
         sanctioned.add(b.id)
@@ -175,12 +177,15 @@ def rule_a(ctx):
             npop += 1
             pbb, _, pt = ops[0]
             good = False
+            extra = []
             for (a, s) in b.cdeps_transitive(pbb):
                 truth, src = edge_is_true(b, a, s)
                 if src and src[0] == "call" and ends(callee_def(src[1]), "TextDecorator::" + nm) and truth is True:
                     good = True
-            ctx.check(good, "C09-A", nm + ":pop-iff-true", pt["span"], b.id,
-                      "pop must be on the true edge of the decorator's answer")
+                else:
+                    extra.append("%s@%s" % (src[0] if src else "?", b.term(a)["span"]))
+            ctx.check(good and not extra, "C09-A", nm + ":pop-iff-true", pt["span"], b.id,
+                      "pop must happen exactly on the true edge of the decorator's answer; further conditions: %s" % extra)
     ctx.floor("C09-A", "ann_stack pushes", npush, 9)
     ctx.floor("C09-A", "ann_stack pops", npop, 9)
     # writer inventory: any other mutable access / assignment of ann_stack
